@@ -20,6 +20,7 @@ type PtrV struct {
 	Cell    *ssa.Alloc  // frame-local register cell root
 	CellFr  int         // frame depth owning the cell
 	Global  *ssa.Global // package-level variable root
+	GArr    bool        // element Idx of the package-level array Global (read only)
 	Base    Term        // heap object reference (Int) when Cell == nil && Global == nil && !IsElem
 	IsElem  bool        // slice element root
 	Slc     Term        // slice header (IsElem)
